@@ -295,10 +295,13 @@ class Check:
                 elif cur is not None:
                     obs[cur].append(line)
             if ubsan_is_violation:
+                ecur = None        # stderr carries the same `# k` markers (hproto.hpp)
                 for l in se.splitlines():
-                    if "runtime error:" in l and re.search(ubsan_is_violation, l):
-                        k = cur if cur is not None else start
-                        ora[k].append("UBSan: " + l.strip()[:300])
+                    if l.startswith("# ") and l[2:].strip().isdigit():
+                        ecur = int(l[2:])
+                    elif "runtime error:" in l and re.search(ubsan_is_violation, l):
+                        k = ecur if ecur is not None else (cur if cur is not None else start)
+                        ora[k].append("UBSan: " + re.sub(r"0x[0-9a-f]+", "ADDR", l.strip())[:300])
             if rc == 0:
                 if any(o is None for o in obs[start:]):
                     notes.append("harness ended early without error")
@@ -376,6 +379,16 @@ class Check:
             both = lambda hh: self._fails(hbin, dbin, hh, env, ubsan_is_violation, canon_impl, canon_model)
             h = self.shrink(histories[i], both)
             im, om, mo = self._eval(hbin, dbin, h, env, ubsan_is_violation, canon_impl, canon_model)
+            if not om and im == mo:
+                # the failure seen in the batch does not reproduce when the history runs alone
+                # (time-out under load, or state leaking between histories): retried once more, then noted
+                im, om, mo = self._eval(hbin, dbin, histories[i], env, ubsan_is_violation, canon_impl, canon_model)
+                if not om and im == mo:
+                    self.cov["counters"]["nonreproducible_batch_failures"] = self.cov["counters"].get("nonreproducible_batch_failures", 0) + 1
+                    self.notes.append("history %d failed in the batch (%s) but not alone; not reported" % (i, what0[:160]))
+                    examined += 1
+                    continue
+                h = histories[i]
             self.report_failure(label, h, im, mo, om)
             examined += 1
 
